@@ -106,7 +106,7 @@ CLAIMS = {
               "a positive decision always stems from a concrete grant entry and no grant is a wildcard "
               "(unknown_role_nothing, multi_role_is_union, unlisted_unreachable, no_wildcard_grants). Tie: exhaustive "
               "product of paths x methods x role sets through the real UserRole::match_url_by_roles, and every route x "
-              "session state x spelling through the real CheckLogin middleware around console_config in-process."),
+              "session state x spelling (incl. query strings that end in a static-file suffix) through the real CheckLogin middleware around console_config in-process."),
         note=("trusted: Lean kernel; translator; hand model RNacos/Model/Auth.lean; the mutating/admin-only "
               "classification of handlers is a hand-written oracle by handler name (DESIGN.md App. C); sessions are "
               "injected into the cache actor, the login flow is not exercised"),
@@ -405,7 +405,8 @@ CLAIMS = {
               "Kept visible: taken_over_never_expires = open known finding F16c (replayed on the "
               "real actor every run); F16a found and fixed. Tie: correspondence on the real NamingActor with a frozen "
               "wall clock incl. the exact +-1 ms boundaries of both time-outs; timeline oracle on the "
-              "implementation's answers. Not covered: the 2 s timer that issues the checks, 'and then everywhere' "
+              "implementation's answers. Also when the process range moves a service out of the node's range (op range2: the harness searches a real "
+              "ProcessRange with the named services in / out): the instances the node registered itself still expire there. Not covered: the 2 s timer that issues the checks, 'and then everywhere' "
               "(see C15)."),
         note=("trusted: Lean kernel; hand model RNacos/Model/Naming.lean; LD_PRELOAD clock shim; time checks issued as "
               "explicit PeekListenerTimeout messages; default time-outs 18 s / 33 s"),
